@@ -39,7 +39,8 @@ def check(ctx: Ctx) -> None:
             p = P.of(v)
             if p is not None and isinstance(v, (ast.Attribute, ast.Name)):
                 w = occupancy_writers(ctx, p)
-                rep.ob("R15.1", "pool_size reports the configured maximum, independent of how many tasks are running", not w, func=f, construct=r,
+                rep.ob("R15.1", "pool_size reports the configured maximum, independent of how many tasks are running", not w, func=f,
+                       construct=f"return {p}" if w else r,
                        detail="" if not w else f"the getter returns {p}, which is moved by {sorted({ctx.fname(e.node.func) for e in w})} "
                                                f"(e.g. {w[0].node.where()} `{w[0].node.text(40)}`): it is the free room, not the maximum")
             else:
@@ -65,7 +66,7 @@ def check(ctx: Ctx) -> None:
             reads_self = any(isinstance(n, ast.Attribute) for n in ast.walk(val)) if val is not None else False
             only_param = names <= {vp} and not reads_self and e.kind == "assign"
             if w and only_param:
-                rep.ob("R15.2", "the new maximum is not stored into the free-room counter", False, node=e.node,
+                rep.ob("R15.2", "the new maximum is not stored into the free-room counter", False, node=e.node, construct=f"{e.path} = value",
                        detail=f"{e.path} counts the free room (moved by {sorted({ctx.fname(x.node.func) for x in w})}); overwriting it with the new maximum "
                               "forgets the tasks that are running (limit becomes running + value)")
             elif w:
